@@ -9,8 +9,10 @@ spec/Balance.tla (+ LinAlg, Balance_MC slices, BalanceTrace).  Directions:
                  disagreement, every "judge" case (predicate-valued admissible set) and a sample
                  of the agreeing ones is additionally judged by TLC (BalanceTrace), and the two
                  formulations must agree.
-  code -> spec : seeded matrices beyond the bounds (<= 6 species x 5 keys, entries <= 12) and
-                 textbook reactions given as formulas are run through the real code; TLC replays
+  code -> spec : seeded matrices beyond the bounds (<= 6 species x 5 keys, entries <= 12), many-species
+                 single-ray problems (11..14 species, positive solution known by construction and
+                 verified by TLC as a Witness) and textbook reactions given as formulas (three of
+                 them with 11..13 species) are run through the real code; TLC replays
                  the problem through the Balance actions, classifies it and judges the outcome.
 """
 import json
@@ -230,6 +232,8 @@ def trace_of(inp, obs):
         for k in range(inp["nk"]):
             ev.append({"ev": "SetEntry", "k": k + 1, "j": j + 1, "v": inp["comp"][k][j]})
     ev.append({"ev": "Classify"})
+    if inp.get("witness"):      # a positive balancing vector known by construction; TLC verifies it
+        ev.append({"ev": "Witness", "x": list(inp["witness"])})
     if inp["dupl"]:
         ev.append({"ev": "Dupl", "pairs": [list(p) for p in inp["dupl"]]})
     ev.append({"ev": "Mode", "m": inp["mode"]})
@@ -347,11 +351,20 @@ TEXTBOOK = [
 ]
 
 
+# formula-defined reactions with >= 11 species and a reference balancing (verified by TLC as a Witness)
+TEXTBOOK_BIG = [
+    ("O2 Fe Al Cr Mn", "FeO Fe2O3 Fe3O4 Al2O3 Cr2O3 CrO3 MnO2", [10, 7, 2, 3, 1, 2, 1, 1, 1, 1, 1, 1]),
+    ("H2 O2 N2 C S Fe Al", "H2O NH3 CO2 SO2 Fe2O3 Al2O3", [5, 9, 1, 1, 1, 4, 4, 2, 2, 1, 1, 2, 2]),
+    ("CH4 C2H6 C3H8 C4H10 O2 N2", "CO2 H2O NO NO2 CO", [3, 2, 1, 2, 33, 2, 16, 26, 2, 2, 2]),
+]
+
+
 def _formula_problem(item):
     """(reactant formulas, product formulas, mode) -> (inp, obs): compositions come from chempy's own
     formula parser (pipeline with C01); rows are the composition keys in sorted order."""
     from chempy import Substance, balance_stoichiometry
-    rtxt, ptxt, mode = item
+    rtxt, ptxt, mode = item[:3]
+    witness = item[3] if len(item) > 3 else None
     reac, prod = rtxt.split(), ptxt.split()
     comps = [Substance.from_formula(f).composition for f in reac + prod]
     keys = sorted(set(k for c in comps for k in c))
@@ -363,7 +376,7 @@ def _formula_problem(item):
     if any(not isinstance(v, int) for r in comp for v in r):
         return None
     inp = {"nr": len(reac), "np": len(prod), "nk": len(keys), "crow": crow, "scale": 1, "comp": comp,
-           "mode": mode, "dupl": [], "formulas": [reac, prod]}
+           "mode": mode, "dupl": [], "formulas": [reac, prod], "witness": witness}
     try:
         res = _guarded(lambda: balance_stoichiometry(list(reac), list(prod), underdetermined=MODES[mode]))
     except _CallTimeout:
@@ -414,13 +427,61 @@ def _seeded(rng, n_problems):
             if not ok or not any(last) or max(abs(v) for v in last) > 60:
                 continue
             cols[-1] = last
+            witness = x
+        else:
+            witness = None
         comp = [[cols[j][k] for j in range(n)] for k in range(nk)]
         if not hadamard_ok(comp):
             continue
         mode = rng.choice(["True", "False", "None"])
         out.append({"nr": nr, "np": n - nr, "nk": nk, "crow": crow, "scale": 1, "comp": comp,
-                    "mode": mode, "dupl": []})
+                    "mode": mode, "dupl": [], "witness": witness})
     return out
+
+
+def _trees(rng, n_problems, nmin=11, nmax=14):
+    """many-species single-ray problems with a positive solution known by construction: choose a
+    positive vector x first, then a random tree on the species; every edge {u, v} is one element
+    shared by exactly these two species, with amounts a (in u), b (in v) such that a*x_u = b*x_v;
+    adjacent species sit on opposite sides (2-colouring of the tree).  n species, n-1 independent
+    keys: rank n-1, generator x/gcd(x).  Every row has two non-zero entries, so every row the
+    integer elimination ever forms is a primitive two-term relation p*x_u = q*x_v with p, q <= max(x):
+    32-bit safe without the Hadamard guard.  One in five has a species moved to the wrong side
+    (generator with mixed signs: a refusal is demanded).  All three modes."""
+    out = []
+    while len(out) < n_problems:
+        n = rng.randint(nmin, nmax)
+        x = [rng.randint(1, 4) for _ in range(n)]
+        parent = [None] + [rng.randrange(0, i) if rng.random() < 0.5 else i - 1 for i in range(1, n)]
+        side = [0] * n
+        for i in range(1, n):
+            side[i] = 1 - side[parent[i]]
+        rows = []
+        for i in range(1, n):
+            u = parent[i]
+            g = math.gcd(x[u], x[i])
+            m = rng.choice([1, 1, 2])
+            row = [0] * n
+            row[u] = m * x[i] // g
+            row[i] = m * x[u] // g
+            rows.append(row)
+        wrong = rng.random() < 0.2
+        if wrong:
+            side[rng.randrange(n)] ^= 1
+        order = [i for i in range(n) if side[i] == 0] + [i for i in range(n) if side[i] == 1]
+        nr = sum(1 for v in side if v == 0)
+        if nr == 0 or nr == n:
+            continue
+        rng.shuffle(rows)
+        comp = [[r[i] for i in order] for r in rows]
+        g = 0
+        for v in x:
+            g = math.gcd(g, v)
+        for mode in ("True", "False", "None"):
+            out.append({"nr": nr, "np": n - nr, "nk": n - 1, "crow": 0, "scale": 1, "comp": comp,
+                        "mode": mode, "dupl": [],
+                        "witness": None if wrong else [x[i] // g for i in order]})
+    return out[:n_problems]
 
 
 def _observe_inp(inp):
@@ -480,7 +541,19 @@ def run(ctx):
             continue
         batch.append((inp, obs, None, "code->spec", "BalanceTrace.cfg"))
 
+    # many-species problems (11..14) with a positive solution known by construction
+    big = _trees(ctx.rng, 150 if ctx.quick else 1500)
+    outs = ctx.pmap(_observe_inp, big)
+    for inp, obs in zip(big, outs):
+        ctx.ran(matrix_id(inp))
+        if obs["k"] == "unencodable":
+            ctx.skip(obs.get("sig") if obs.get("sig") == "call-timeout" else "unencodable-observation")
+            continue
+        batch.append((inp, obs, None, "code->spec", "BalanceTrace.cfg"))
+    ctx.counters["many_species_problems"] += len(big)
+
     tb = [(r, p, m) for (r, p) in TEXTBOOK for m in ("True", "False", "None")]
+    tb += [(r, p, m, w) for (r, p, w) in TEXTBOOK_BIG for m in ("True", "False", "None")]
     outs = ctx.pmap(_formula_problem, tb)
     first = None
     for it, o in zip(tb, outs):
@@ -503,7 +576,8 @@ def run(ctx):
 def replay(ctx, rec):
     inp = rec["case"]["in"]
     if "formulas" in inp:
-        o = _formula_problem((" ".join(inp["formulas"][0]), " ".join(inp["formulas"][1]), inp["mode"]))
+        o = _formula_problem((" ".join(inp["formulas"][0]), " ".join(inp["formulas"][1]), inp["mode"],
+                              inp.get("witness")))
         inp, obs = o
     else:
         obs = observe(inp)
